@@ -550,7 +550,7 @@ impl Property for C01 {
         if rng.chance(35) {
             return super::watch::gen_watch(rng, &super::watch::WatchOpts { inside_build_pct: 60, fail_pct: 15, ..Default::default() });
         }
-        if rng.chance(15) {
+        if rng.chance(30) {
             // several projects reusing target names, dependencies spelled as `dependencies`, as
             // `X.output`, or both, within and across projects
             let mut sc = gen::gen_io(rng, &gen::IoOpts { multi_project_pct: 100, max_targets: 7, cmd_pct: 10, cmd_output_pct: 0, own_output_inside_input_pct: 0 });
